@@ -188,6 +188,23 @@ func streamPositions(ctx *Ctx) *Result {
 		if len(lfs) > 0 {
 			arg = intsCSV(lfs)
 		}
+		// direct oracle: the definition, on a source whose newlines are at these offsets
+		for k, pos := range poss {
+			nb, last := 0, -1
+			for _, o := range lfs {
+				if o < pos {
+					nb++
+					last = o
+				}
+			}
+			wl, wc := 1+nb, pos-last
+			if got[k][0] != wl || got[k][1] != wc {
+				res.Fail(Failure{Kind: "oracle", Input: fmt.Sprintf("a source with newlines exactly at offsets %v; positions looked up in this order on one program: %v", lfs, poss),
+					Impl: fmt.Sprintf("lookup %d (offset %d) gives %d:%d", k+1, pos, got[k][0], got[k][1]),
+					Expected: fmt.Sprintf("%d:%d (line = 1 + newlines before the offset, column = distance from the preceding newline)", wl, wc)})
+				return
+			}
+		}
 		for k, pos := range poss {
 			m := ask(d, fmt.Sprintf("LINECOL %s %d", arg, pos))
 			res.Eval(1)
@@ -361,7 +378,7 @@ func streamWF(ctx *Ctx) *Result {
 			return
 		}
 		dump := field(line, "dump")
-		if len(dump) > 400000 {
+		if len(dump) > 3000000 {
 			res.Count("skipped-large", 1)
 			return
 		}
